@@ -39,8 +39,13 @@ def _chunk(args):
                                  'what': f'execution failed: {type(e).__name__}: {e}',
                                  'signature': {'kind': 'exception', 'type': type(e).__name__}})
             continue
-        tie, mev, mpend = B.parse_model(ans)
         case = {'cfg': cfg, 'ins': ins, 'plan': plan, 'flavor': fl}
+        try:
+            tie, mev, mpend = B.parse_model(ans)
+        except B.ModelOutOfFuel as e:
+            out.diffs.append({'case': case, 'impl': None, 'model': str(e),
+                              'where': 'the batcher machine ran out of fuel on this program (`programDone` is false)'})
+            continue
         if tie:
             out.count('ties-not-judged')
             continue
